@@ -132,7 +132,7 @@ func (t *RuntimeType) Equals(o interface{}, g px.Guard) bool {
 		if t.pattern == nil {
 			return ot.pattern == nil
 		}
-		return t.pattern.Equals(ot.pattern, g)
+		return ot.pattern != nil && t.pattern.Equals(ot.pattern, g)
 	}
 	return false
 }
@@ -214,7 +214,7 @@ func (t *RuntimeType) Name() string {
 }
 
 func (t *RuntimeType) Parameters() []px.Value {
-	if t.runtime == `` {
+	if t.runtime == `` && t.name == `` && t.pattern == nil {
 		return px.EmptyValues
 	}
 	ps := make([]px.Value, 0, 2)
